@@ -1103,10 +1103,11 @@ Definition no_desc_ref_targets : bool :=
    compiler with the old name resolution does on the two shapes above is not modelled (None here, and
    `agrees` abstains there: `go_abstains`) *)
 Definition accepts (m : mode) : bool := wf && no_unique_collision m && resolves_like_spec m.
-(* a compiler that skips the descriptor's reference fields accepts any target, declared or not: not
-   modelled either *)
+(* a compiler that skips the descriptor's reference fields accepts any target, declared or not: what it
+   does with a schema that is not well-formed and has such targets is not modelled either (on a
+   well-formed one the Go model reproduces it exactly: the fields are there, the targets are not) *)
 Definition go_abstains : bool :=
-  (wf && negb (resolves_like_spec Go)) || (negb (m_desc_refs Go) && negb no_desc_ref_targets).
+  (wf && negb (resolves_like_spec Go)) || (negb (m_desc_refs Go) && negb no_desc_ref_targets && negb wf).
 Definition compile (m : mode) : option (list item) :=
   if accepts m then Some (compile_items m) else None.
 
